@@ -47,6 +47,39 @@ func distFunc(name string) orb.DistanceFunc {
 	return planar.Distance
 }
 
+func closeRel(a, b, rel float64) bool {
+	if a == b {
+		return true
+	}
+	return math.Abs(a-b) <= rel*math.Max(math.Abs(a), math.Abs(b))
+}
+
+// ownDistance is the harness's own statement of the three metrics.
+func ownDistance(name string, a, b orb.Point) float64 {
+	const r = 6378137.0 // metres; the value orb documents as EarthRadius
+	rad := func(d float64) float64 { return d * math.Pi / 180 }
+	switch name {
+	case "geo":
+		dlat := rad(a[1] - b[1])
+		dlon := math.Abs(rad(a[0] - b[0]))
+		if dlon > math.Pi {
+			dlon = 2*math.Pi - dlon
+		}
+		x := dlon * math.Cos(rad((a[1]+b[1])/2))
+		return math.Sqrt(dlat*dlat+x*x) * r
+	case "haversine":
+		s1 := math.Sin(rad(a[1]-b[1]) / 2)
+		s2 := math.Sin(rad(a[0]-b[0]) / 2)
+		h := s1*s1 + math.Cos(rad(a[1]))*math.Cos(rad(b[1]))*s2*s2
+		if h > 1 {
+			h = 1
+		}
+		return 2 * r * math.Atan2(math.Sqrt(h), math.Sqrt(1-h))
+	}
+	dx, dy := a[0]-b[0], a[1]-b[1]
+	return math.Sqrt(dx*dx + dy*dy)
+}
+
 // model: point at arc length target along ls, by direct interpolation on the
 // first non-degenerate segment containing it.
 func expectedAt(ls orb.LineString, dists []float64, target float64) orb.Point {
@@ -176,6 +209,16 @@ func checkCase(c Case) error {
 	for i := range dists {
 		dists[i] = df(orig[i], orig[i+1])
 		total += dists[i]
+		// the distance function handed to the resampler is the library's own (planar.Distance, geo.Distance,
+		// geo.DistanceHaversine - the "planar and great-circle distance functions" of the quantifier): it must
+		// be the metric it is documented to be, independent of the direction of travel. Judged against the
+		// harness's own formulas so that a change inside planar/ or geo/ cannot move the model with it.
+		want := ownDistance(c.DF, orig[i], orig[i+1])
+		back := df(orig[i+1], orig[i])
+		if !closeRel(dists[i], want, 1e-12) || !closeRel(back, want, 1e-12) {
+			return fmt.Errorf("distance function %s: segment %d %v -> %v measures %v forward and %v backward, the harness's own formula gives %v",
+				c.DF, i, orig[i], orig[i+1], dists[i], back, want)
+		}
 	}
 
 	if c.Mode == "resample" {
